@@ -102,7 +102,11 @@ OP = st.one_of(
     st.tuples(st.just("assign"), st.integers(0, 4), st.integers(0, 12)),
     st.tuples(st.just("otc"), st.integers(0, 4), st.integers(0, 12)),
     st.tuples(st.just("observe"), st.integers(0, 4), st.integers(0, 12)),
-    st.tuples(st.just("add_trait"), st.integers(0, 4), st.sampled_from(["extra", "override"]), st.integers(0, 12)),
+    st.tuples(st.just("add_trait"), st.integers(0, 4), st.sampled_from(["extra", "override", "xl", "xl"]), st.integers(0, 12)),
+    # a container trait ADDED to several instances under the same name, item handlers on one, mutation on another
+    st.tuples(st.just("xl_otc"), st.integers(0, 4)), st.tuples(st.just("xl_mut"), st.integers(0, 4)),
+    # item-level handlers on a declared container attribute (for Union members the items trait only appears on demand)
+    st.tuples(st.just("otc_items"), st.integers(0, 4), st.integers(0, 12)),
     st.tuples(st.just("remove_trait"), st.integers(0, 4)),
     st.tuples(st.just("query"), st.integers(0, 4)),
     st.tuples(st.just("new"), st.booleans()),
@@ -179,6 +183,14 @@ def run(case, ctx):
     new(False)
     new(True)
 
+    # handlers record the instance they were REGISTERED on (not the object they are handed): a call that reaches a
+    # handler registered elsewhere is a foreign call whatever object it reports
+    def mk_otc(me):
+        return lambda obj, n, old, new: log.append((me, "otc:" + n, obj.__dict__.get("_serial")))
+
+    def mk_obs(me):
+        return lambda e: log.append((me, "obs", e.object.__dict__.get("_serial")))
+
     def defaults_of(cls):
         return sub_default if cls is Sub else model_default
 
@@ -199,6 +211,16 @@ def run(case, ctx):
     class_names = (sorted(Base.class_trait_names()), sorted(Sub.class_trait_names()))
     interesting = False
 
+    probe_names = names + [n + "_items" for n in names] + ["xl", "xl_items"] + ["extra%d" % i for i in range(8)]
+
+    def raw_defs(oo):
+        """Trait definitions observable on an instance, events included (trait_names() filters events out)."""
+        return (sorted(oo._instance_traits()), tuple(n for n in probe_names if oo.trait(n) is not None))
+
+    def raw_class():
+        return tuple((sorted(c.__class_traits__), sorted(c.__prefix_traits__)) for c in (Base, Sub))
+    raw_base = raw_class()
+
     for op in case["ops"]:
         k = op[0]
         if k == "new":
@@ -208,9 +230,30 @@ def run(case, ctx):
         j = op[1] % len(insts)
         o, m = insts[j], models[j]
         del log[:]
+        defs_before = [raw_defs(oo) if jj != j else None for jj, oo in enumerate(insts)]
         what = "op=%r on instance #%d (%s), kinds=%r" % (op, j, m["cls"].__name__, kinds)
-        if k == "add_trait":
-            if op[2] == "extra":
+        if k in ("xl_otc", "xl_mut"):
+            if "xl" not in m["extra"]:
+                continue
+            if k == "xl_otc":
+                f = mk_otc(o.__dict__["_serial"])
+                keep.append(f)
+                o.on_trait_change(f, "xl_items")
+                ctx.label("handler-registered")
+            else:
+                o.xl.append(len(o.xl))
+                m["vals"]["xl"] = plain(o.xl)
+                ctx.label("added-container-mutated")
+            interesting = True
+            nm = None
+        elif k == "add_trait":
+            if op[2] == "xl":
+                if "xl" in m["extra"]:
+                    continue
+                o.add_trait("xl", List(Int))
+                m["extra"].add("xl")
+                m["vals"]["xl"] = []
+            elif op[2] == "extra":
                 name = "extra%d" % j
                 o.add_trait(name, Int(3))
                 m["extra"].add(name)
@@ -304,20 +347,30 @@ def run(case, ctx):
                 setattr(o, nm, copy.deepcopy(val) if kind != "inst" else val)
                 m["vals"][nm] = plain(getattr(o, nm))
             elif k == "otc":
-                f = lambda obj, n, old, new: log.append((obj.__dict__.get("_serial"), "otc:" + n))
+                f = mk_otc(o.__dict__["_serial"])
                 keep.append(f)
                 o.on_trait_change(f, nm)
                 interesting = True
                 ctx.label("handler-registered")
+            elif k == "otc_items":
+                if kind not in ("list", "dict", "set", "dyn", "unionlist", "dictlist", "listlist"):
+                    continue
+                if kind == "unionlist" and o.trait(nm + "_items") is None:
+                    continue          # (the items trait of a Union member exists only after the first in-place mutation)
+                f = mk_otc(o.__dict__["_serial"])
+                keep.append(f)
+                o.on_trait_change(f, nm + "_items")
+                interesting = True
+                ctx.label("items-handler-registered")
             elif k == "observe":
-                f = lambda e: log.append((e.object.__dict__.get("_serial"), "obs"))
+                f = mk_obs(o.__dict__["_serial"])
                 keep.append(f)
                 o.observe(f, nm)
                 interesting = True
                 ctx.label("handler-registered")
         # ---- isolation
         me = o.__dict__["_serial"]
-        if any(x[0] != me for x in log):
+        if any(x[0] != me or (len(x) > 2 and x[2] != me) for x in log):
             ctx.fail("isolation/foreign-handler", "handlers of another instance were called: %r: %s" % (log, what))
         seen = {}
         for jj, oo in enumerate(insts):
@@ -338,6 +391,12 @@ def run(case, ctx):
                             ctx.fail("isolation/shared-container", "instances #%d and #%d share a container in %s: %s"
                                      % (seen[cid], jj, n2, what))
                         seen[cid] = jj
+        for jj, oo in enumerate(insts):
+            if jj != j and jj < len(defs_before) and raw_defs(oo) != defs_before[jj]:
+                ctx.fail("isolation/trait-definitions", "trait definitions observable on instance #%d changed %r -> %r: %s"
+                         % (jj, defs_before[jj], raw_defs(oo), what))
+        if raw_class() != raw_base:
+            ctx.fail("isolation/class-definitions", "class-level trait tables changed: %r -> %r: %s" % (raw_base, raw_class(), what))
         if (class_state(Base), class_state(Sub)) != base_state:
             ctx.fail("isolation/class-definitions", "class-level trait definitions changed: %r -> %r: %s"
                      % (base_state, (class_state(Base), class_state(Sub)), what))
@@ -364,4 +423,4 @@ def run(case, ctx):
 
 def stages(tier):
     return [{"name": "hist", "kind": "hyp", "strategy": strategy, "run": run,
-             "examples": {"quick": 3000, "thorough": 300000}, "shards": 16}]
+             "examples": {"quick": 12000, "thorough": 300000}, "shards": 16}]
